@@ -138,10 +138,10 @@ def confirm(ob):
     import replay
     from kani_engine import playback_floats
     import re
-    m = re.search(r"hist\[(\d+)\]", ob.name)
+    m = re.search(r"hist(_const)?\[(\d+)\]", ob.name)
     if not m:
         return None
-    L = int(m.group(1))
+    L = int(m.group(2))
     fl = playback_floats(ob.cex)
     if len(fl) < L + 2:
         return None
@@ -149,6 +149,8 @@ def confirm(ob):
     # any_hist(): range (L+1 floats), then bins (u64), then x (f64) -- x is the last f64 read
     x = fl[-1]
     t = {1: "H1", 2: "H2", 3: "H3", 4: "H4", 10: "Histogram10"}.get(L)
+    if m.group(1):
+        t = "HC%d" % L if L <= 4 else None      # the const-generic copy: replayed with cargo +nightly (feature nightly)
     if t is None or any(e != e for e in edges):
         return None
     prog = {"type": t, "ctor": ["from_ranges", edges], "ops": [["add", x]], "observe": ["bins"]}
